@@ -116,6 +116,33 @@ def run(rep: Report) -> None:
     rep.analysed["configurations"] = len(cks)
     rep.analysed["definedness_paths"] = n_def
 
+    # (e) after Network.step a valid network compiles at every compactness level
+    from .. import compile as CP
+    from ..interp import Raised, TV
+
+    ncomp = 0
+    for variant in ("merge", "minimal", "bifurcation"):
+        for st in ("SX", "MX"):
+            for compact in (0, 1, 2):
+                for more_out in (False, True):
+                    ncomp += 1
+                    label = f"{variant} network, {st}, compact={compact}{', more_out' if more_out else ''}"
+                    net = CP.build_network(prog, st, variant=variant, vsl=False)
+                    try:
+                        CP.run_step(prog, net)
+                    except Raised as e:
+                        rep.refuted("compiles-after-step", label, "Network.step",
+                                    f"stepping the reference network raises {e.exc}: {e.msg}", key=f"cstep|{e.exc}")
+                        continue
+                    r = CP.to_function(prog, net, compact=compact, more_out=more_out,
+                                       other={"T": TV(E.S("T"), 0, False)})
+                    if r[0] == "raise":
+                        rep.refuted("compiles-after-step", label, "Engine.to_function",
+                                    f"to_function raises {r[1].exc}: {r[1].msg}", key=f"ctf|{r[1].exc}|c={compact}")
+                    else:
+                        rep.holds("compiles-after-step", label, "Engine.to_function")
+    rep.floor("compile scenarios", ncomp, 30)
+
     # primitives in isolation with length-1 (rank-1) scalar arguments: numpy ranks
     runs = PC.all_runs(prog, rep.tier, impls=("numpy",), scalar_rank=1)
     for r in runs:
